@@ -480,10 +480,15 @@ func runC03(c *Ctx) {
 				bb := &bctx{c: c, fn: f, assumeNonNeg: map[*ssa.Parameter]bool{}, assumeLT: map[ltAssume]bool{}}
 				okc = bb.lenGT(r.Results[0], 0, r)
 			} else if bo, isBo := hv.(*ssa.BinOp); isBo {
-				// p.Value != "" with value slice []string{p.Value}
-				_ = bo
-				elems, isLit := sliceLitElems(r.Results[0])
-				okc = isLit && len(elems) == 1
+				if l := asCall(bo.X); l != nil && calleeName(&l.Call) == "builtin len" && l.Call.Args[0] == r.Results[0] {
+					// hasValue IS `len(value) > 0`
+					k, isK := constInt(bo.Y)
+					okc = isK && (bo.Op == token.GTR && k == 0 || bo.Op == token.NEQ && k == 0 || bo.Op == token.GEQ && k == 1)
+				} else {
+					// p.Value != "" with value slice []string{p.Value}
+					elems, isLit := sliceLitElems(r.Results[0])
+					okc = isLit && len(elems) == 1
+				}
 			} else {
 				// named result: every store of true is under len(value) > 0
 				okc = true
